@@ -145,6 +145,11 @@ static void do_sovl(hctx* h, const bounded* b, const val_t* qmin, const val_t* q
     fprintf(h->out, " qmax="); opt_print(h->out, qmax);
     fprintf(h->out, " data="); vs_print(h->out, b->rows, b->n); h_call(h);
     parquet_statistics_t st; fill_pstats(&st, &b->smin, &b->smax);
+    /* the exactness flags of the bounds: absent, or present and FALSE (which promises nothing: such a bound may still be
+     * attained) - chosen from the line's own content, so a replay sets the same */
+    { int ex = (int)((unsigned)(b->n * 5 + b->smin.len + 3 * b->smax.len + (qmin->null ? 1 : 0)) % 4);
+      if (ex & 1) { st.has_is_min_value_exact = true; st.is_min_value_exact = false; }
+      if (ex & 2) { st.has_is_max_value_exact = true; st.is_max_value_exact = false; } }
     size_t vl = !qmin->null ? (size_t)qmin->len : !qmax->null ? (size_t)qmax->len : 0;
     bool ov = true;
     int s = (int)carquet_statistics_range_overlaps(&st, (carquet_physical_type_t)b->t, qmin->null ? NULL : qmin->p,
